@@ -64,10 +64,12 @@
 (*                       is only looked at again by the start-up replay    *)
 (*                       or Reprocess                 [X07-dropped-nokey]  *)
 (*   StoreAtomic         StoreCredential's "is the id taken?" (find) and   *)
-(*                       its write are one critical section; the code      *)
+(*                       its write are one critical section (the code      *)
+(*                       since the repair of X07-store-race: look, verify, *)
+(*                       then look again and write under a mutex).  Before:*)
 (*                       looks, verifies, then writes: two handler calls   *)
 (*                       for one id that overlap (retry goroutine, the     *)
-(*                       REPROCESS subscriber) both write [X07-store-race] *)
+(*                       REPROCESS subscriber) both write                  *)
 (*   ContextErrorsSeen   handleError recognises a JSON-LD context error    *)
 (*                       below the signature check of a CREDENTIAL (not on *)
 (*                       the allow list: acknowledged; remote context not  *)
